@@ -312,6 +312,7 @@ func isEffectFree(name string) bool {
 	for _, p := range []string{
 		"(*google.golang.org/grpc/internal/grpclog.PrefixLogger).", "(*google.golang.org/grpc/grpclog.", "google.golang.org/grpc/grpclog.", "(google.golang.org/grpc/grpclog.",
 		"fmt.Sprintf", "fmt.Sprint", "google.golang.org/grpc/internal/channelz.", "(*google.golang.org/grpc/internal/grpclog.",
+		"google.golang.org/grpc/balancer/base.NewErrPicker",
 		"google.golang.org/grpc/internal/grpclog.",
 	} {
 		if strings.HasPrefix(name, p) {
